@@ -22,7 +22,12 @@ def fresh_table(fa, message_style, texts_on_fulfilled=False):
         msg = f"OK: {k} looks fine" if texts_on_fulfilled and int(k) % 2 == 1 else None
         if not v:
             msg = {"plain": f"E{k}", "unicode": f"Formatprüfung {k} »fehlgeschlagen« ✗", "quotes": f"'{k}' \"oder\" 'und'"}[message_style]
-        out[k] = EvaluatedFormatConstraint(format_constraint_fulfilled=v, error_message=msg)
+        if texts_on_fulfilled and msg is not None and v and int(k) % 4 == 1:
+            # ... or an object that is created pessimistically and corrected later (attributes of the model are assignable)
+            out[k] = EvaluatedFormatConstraint(format_constraint_fulfilled=False, error_message=msg)
+            out[k].format_constraint_fulfilled = True
+        else:
+            out[k] = EvaluatedFormatConstraint(format_constraint_fulfilled=v, error_message=msg)
     return out
 
 
